@@ -496,3 +496,120 @@ func c01styleseqPhase(r *Run, rng *Rng, n int) {
 		c01styleseq(r, b.String())
 	}
 }
+
+// c01storedMergesRaw: the stored merged-range list as written (no re-sorting of the corners).
+func c01storedMergesRaw(f *xl.File, sheet string) ([]c01rect, bool) {
+	d := xl.VerifDumpSheet(f, sheet)
+	i := strings.LastIndex(d, " M=")
+	j := strings.LastIndex(d, " dense=")
+	if i < 0 || j < i {
+		return nil, false
+	}
+	var out []c01rect
+	for _, ref := range strings.Split(d[i+3:j], ",") {
+		if ref == "" || ref == "nil" {
+			continue
+		}
+		p := strings.Split(ref, ":")
+		a, b, e1 := xl.CellNameToCoordinates(p[0])
+		c, e, e2 := xl.CellNameToCoordinates(p[len(p)-1])
+		if e1 != nil || e2 != nil {
+			return nil, false
+		}
+		out = append(out, c01rect{a, b, c, e})
+	}
+	return out, true
+}
+
+// c01mergeseq: MergeCell calls (corners in any order) on a new worksheet; the stored merged-range list
+// afterwards against SaveMerge.mergeCell (sortCoordinates + append). inv_step_merge on the real code: when
+// no two requested ranges overlap, the stored list after a real save + open is the stored list before.
+func c01mergeseq(r *Run, spec string) {
+	w := strings.Fields(spec)
+	res := "bad-op"
+	var pre, post []c01rect
+	saved := false
+	func() {
+		defer func() {
+			if recover() != nil {
+				res = "PANIC"
+			}
+		}()
+		n, err := strconv.Atoi(w[0])
+		if err != nil || len(w) != 1+4*n {
+			return
+		}
+		f := xl.NewFile()
+		defer f.Close()
+		for k := 0; k < n; k++ {
+			v := [4]int{}
+			for q := range v {
+				v[q], _ = strconv.Atoi(w[1+4*k+q])
+			}
+			a, e1 := xl.CoordinatesToCellName(v[0], v[1])
+			b, e2 := xl.CoordinatesToCellName(v[2], v[3])
+			if e1 != nil || e2 != nil || f.MergeCell("Sheet1", a, b) != nil {
+				res = "ERR"
+				return
+			}
+		}
+		l, ok := c01storedMergesRaw(f, "Sheet1")
+		if !ok {
+			return
+		}
+		pre = l
+		res = "ok " + c01rectsWire(l)
+		if g, err := c01save(f, 0); err == nil {
+			post, saved = c01storedMergesRaw(g, "Sheet1")
+			g.Close()
+		}
+	}()
+	ln := r.Op("mergeseq "+spec, res)
+	r.Case("mergeseq:"+spec, true)
+	r.Stat("mergeseq")
+	if strings.HasPrefix(res, "ok ") && !c01rectsOverlap(pre) {
+		r.Stat("mergeseq:disjoint")
+		if !saved || c01rectsWire(post) != c01rectsWire(pre) {
+			r.Fail("mergeseq:disjoint-list-changed-by-save", fmt.Sprintf("stored merged ranges %v without overlap become %v after save+open", pre, post), ln, "mergeseq "+spec)
+		}
+	}
+}
+
+func c01mergeseqPhase(r *Run, rng *Rng, n int) {
+	c01mergeseq(r, "0")
+	c01mergeseq(r, "3 1 1 1 2 4 4 5 5 3 3 2 1")
+	c01mergeseq(r, "2 16384 2 16383 1 3 9 1 9")
+	for k := 0; k < n; k++ {
+		m := rng.Range(1, 5)
+		var b strings.Builder
+		b.WriteString(strconv.Itoa(m))
+		for q := 0; q < m; q++ {
+			bc, br := 1, 1
+			if rng.Chance(10) {
+				bc = 16376
+			}
+			x1, y1 := bc+rng.Intn(9), br+rng.Intn(9)
+			x2, y2 := x1, y1
+			if rng.Chance(70) {
+				x2 = bc + rng.Intn(9)
+				if x2 > x1+2 {
+					x2 = x1 + 2
+				}
+				if x2 < x1-2 {
+					x2 = x1 - 2
+				}
+			}
+			if rng.Chance(70) {
+				y2 = br + rng.Intn(9)
+				if y2 > y1+2 {
+					y2 = y1 + 2
+				}
+				if y2 < y1-2 {
+					y2 = y1 - 2
+				}
+			}
+			fmt.Fprintf(&b, " %d %d %d %d", x1, y1, x2, y2)
+		}
+		c01mergeseq(r, b.String())
+	}
+}
